@@ -209,6 +209,8 @@ def validate_batches(chk, trace_file, curve, jobs=12):
 
 def replay(chk, path):
     case = json.load(open(path))["payload"]
+    if vlib.replay_generic(chk, case):
+        chk.finish(rule="re-validation of one recorded trace / batch job")
     if "job" in case:
         rows, _ = run_jobs(chk, case["curve"], [case["job"]])
         for row in rows:
